@@ -180,6 +180,27 @@ class Model:
                 cur['status'] = st
                 cur['definition'] = df
 
+    def describe_counts(self, sp):
+        """What Lexicon.describe() counts for an installed lexicon: its own words and synsets
+        per part of speech, its own senses, and the ILIs (proposed ones included) its synsets
+        carry."""
+        ix = self.idx[sp]
+        words, synsets = {}, {}
+        for e in ix.local_entries():
+            pos = e['lemma'].get('partOfSpeech')
+            words[pos] = words.get(pos, 0) + 1
+        ilis, proposed = set(), 0
+        for ss in ix.local_synsets():
+            pos = ss.get('partOfSpeech')
+            synsets[pos] = synsets.get(pos, 0) + 1
+            i = ss.get('ili')
+            if i == 'in':
+                proposed += 1
+            elif i:
+                ilis.add(i)
+        return {'words': words, 'senses': len(ix.local_senses()), 'synsets': synsets,
+                'ilis': len(ilis) + proposed}
+
     def extensions_of(self, sp, depth=-1):
         """Installed (transitive) extensions of *sp*, nearest first."""
         out, frontier, d = [], [sp], 0
